@@ -4,12 +4,15 @@ import sys, os
 sys.path.insert(0, os.path.dirname(os.path.dirname(os.path.abspath(__file__))))
 from engine import program
 from engine.exits import Exits
+from engine.inline import inline
 P = program.load()
 for pat in sys.argv[1:]:
     for b in P.bodies:
         if pat == b.name or (pat.endswith('*') and b.name.startswith(pat[:-1])):
             print('==', b.name)
-            for e in Exits(P, b).census():
+            bb = inline(P, b) if os.environ.get('INLINE', '1') == '1' else b
+            print('   inlined:', getattr(bb, '_inlined', []))
+            for e in Exits(P, bb).census():
                 print('  [%s] %s   @%s' % (e['cls'], e['label'], e['span']))
                 for a in e['atoms']:
                     print('        ', a)
